@@ -228,6 +228,12 @@ func bindValue(s *Summary, c *bindCase) {
 	binding.ResetValidator()
 }
 
+type bindVoid struct {
+	Link  string `xml:"link" json:"link"`
+	Meta  string `xml:"meta" json:"meta"`
+	After string `xml:"after" json:"after"`
+}
+
 type bindRequired struct {
 	Token string `json:"token" xml:"token" form:"token" query:"token" validate:"required"`
 }
@@ -295,6 +301,28 @@ func bindGating(s *Summary) {
 					round = 99
 					break
 				}
+			}
+		}
+	}
+	// XML is XML: element names that HTML treats as void elements are ordinary fields, and what is not well-formed XML is an error
+	{
+		var got bindVoid
+		err, pan := safeBind(func() error {
+			return binding.Auto(mkReq("POST", "/b", "<bindVoid><link>l</link><meta>m</meta><after>a</after></bindVoid>", "application/xml"), &got)
+		})
+		s.Compared++
+		if pan != nil || err != nil || got.Link != "l" || got.Meta != "m" || got.After != "a" {
+			s.mismatch(map[string]any{"kind": "bind", "aspect": "roundtrip", "what": fmt.Sprintf(
+				"XML body with the fields link, meta, after: bound %+v err=%v panic=%v", got, err, pan)}, nil)
+		}
+		for _, bad := range []string{"<bindVoid><after>a</bindVoid></after>", "<bindVoid><after>a&nbsp;b</after></bindVoid>", "<bindVoid><after>a & b</after></bindVoid>",
+			"<bindVoid><after x=1>a</after></bindVoid>", "<bindVoid><br><after>a</after></bindVoid>"} {
+			var g2 bindVoid
+			err, pan := safeBind(func() error { return binding.Auto(mkReq("POST", "/b", bad, "application/xml"), &g2) })
+			s.Compared++
+			if pan != nil || err == nil {
+				s.mismatch(map[string]any{"kind": "bind", "aspect": "malformed", "what": fmt.Sprintf(
+					"XML body %q is not well-formed but was bound without error: %+v (panic %v)", bad, g2, pan)}, nil)
 			}
 		}
 	}
